@@ -394,7 +394,12 @@ def _regress_worker(pid: str) -> dict:
             if bad is not None:
                 stats.violations.append({'case': case, 'msg': f'[regress/{fn}] ' + bad.msg, 'key': bad.key})
         for key, f in open_keys.items():
-            for case in f.get('repro_cases', []):
+            rc = f.get('repro_cases', [])
+            if isinstance(rc, dict):          # per-property reproductions
+                rc = rc.get(pid, [])
+            for case in rc:
+                if not isinstance(case, dict):
+                    continue
                 out = prop.run_case(case)
                 stats.record(case, out, 'regress')
                 if not out.ok and out.key == key:
